@@ -424,7 +424,9 @@ def run_shallow(ctx: Ctx) -> RuleResult:
     for f, c in sites:
         st = enclosing_stmt(c)
         site = '%s %s' % (f.loc(c), f.qual)
-        props = ['C14'] if f.module.name == 'lark.parser_frontends' else ['C13']
+        # (C03: ChildFilterLALR extends the child list of an inlined first child in place, which is only sound
+        #  while no tree on a value stack is shared between two parsers that both reduce)
+        props = ['C14'] if f.module.name == 'lark.parser_frontends' else ['C13', 'C03']
         if not (isinstance(st, ast.Assign) and isinstance(st.targets[0], ast.Name)):
             res.ob(site, 'shallow fork bound to a local', False)
             res.finding(f, st, 'a shallow fork is not kept in a local: cannot follow what is fed to it', construct='shallow-unbound')
